@@ -771,3 +771,86 @@ case("c10-sweep-writes-status", "C10", "mutant", [(REC_, """            if stage
 case("c10-refactor-rename-first-task", "C10", "refactor", [(REC_, """                    first_task = not_started_tasks[0]""", """                    nxt_task = not_started_tasks[0]"""),
      (REC_, """                    if not self.queue.has_pending_message_for_task(first_task.id):""", """                    if not self.queue.has_pending_message_for_task(nxt_task.id):"""),
      (REC_, """                                task_id=first_task.id,""", """                                task_id=nxt_task.id,""")])
+
+# ---------------------------------------------------------------- C20
+EX_ = "src/stabilize/expressions.py"
+TP_ = "src/stabilize/dag/topological.py"
+case("c20-call-node-allowed", "C20", "mutant", [(EX_, """    if isinstance(node, ast.List):
+        return [_eval_node(elt, context) for elt in node.elts]
+""", """    if isinstance(node, ast.List):
+        return [_eval_node(elt, context) for elt in node.elts]
+
+    if isinstance(node, ast.Call):
+        fn = _eval_node(node.func, context)
+        return fn(*[_eval_node(a, context) for a in node.args])
+""")], "C20.R1")
+case("c20-pow-operator", "C20", "mutant", [(EX_, """    ast.USub: operator.neg,
+""", """    ast.USub: operator.neg,
+    ast.Invert: operator.inv,
+""")], "C20.R1")
+case("c20-compare-try-removed", "C20", "mutant", [(EX_, """            try:
+                if not op_func(left, right):
+                    return False
+            except TypeError as e:
+                raise ExpressionError(
+                    f"Cannot compare {type(left).__name__} and {type(right).__name__} with {type(op).__name__}: {e}"
+                ) from e
+""", """            if not op_func(left, right):
+                return False
+""")], "C20.R3")
+case("c20-getattr-fallback", "C20", "mutant", [(EX_, """        if isinstance(value, dict):
+            return value.get(node.attr)
+        return None
+""", """        if isinstance(value, dict):
+            return value.get(node.attr)
+        return getattr(value, node.attr, None)
+""")], "C20.R1")
+case("c20-context-cache-write", "C20", "mutant", [(EX_, """        if node.id in context:
+            return context[node.id]
+        return None  # Missing context keys evaluate to None""", """        if node.id in context:
+            return context[node.id]
+        context[node.id] = None
+        return None  # Missing context keys evaluate to None""")], "C20.R2")
+case("c20-caller-reraises", "C20", "mutant", [(H + "complete_stage/split_logic.py", """                skipped.append(downstream)
+
+        # OR-split must activate""", """                skipped.append(downstream)
+                raise
+
+        # OR-split must activate""")], "C20.R4")
+case("c20-topo-any-requisite", "C20", "mutant", [(TP_, """        sortable = [
+            stage_by_id[sid] for sid in unsorted_ids if ref_ids.issuperset(stage_by_id[sid].requisite_stage_ref_ids)
+        ]
+
+        if not sortable:
+            # No progress possible - circular dependency""", """        sortable = [
+            stage_by_id[sid] for sid in unsorted_ids if not stage_by_id[sid].requisite_stage_ref_ids or ref_ids & set(stage_by_id[sid].requisite_stage_ref_ids)
+        ]
+
+        if not sortable:
+            # No progress possible - circular dependency""")], "C20.R5")
+case("c20-unknown-ref-against-prefix", "C20", "mutant", [(TP_, """            raise InvalidStageGraphError(f"duplicate_ref: ref_id '{stage.ref_id}' is used by more than one stage")
+        seen.add(stage.ref_id)
+""", """            raise InvalidStageGraphError(f"duplicate_ref: ref_id '{stage.ref_id}' is used by more than one stage")
+        seen.add(stage.ref_id)
+        unknown = set(stage.requisite_stage_ref_ids) - seen
+        if unknown:
+            raise InvalidStageGraphError(f"unknown_ref: stage '{stage.ref_id}' requires nonexistent stage(s) {sorted(unknown)}")
+"""), (TP_, """        unknown = set(stage.requisite_stage_ref_ids) - seen
+        if unknown:
+            raise InvalidStageGraphError(
+                f"unknown_ref: stage '{stage.ref_id}' requires nonexistent stage(s) {sorted(unknown)}"
+            )
+""", "")], "C20.R5")
+case("c20-create-skips-validation", "C20", "mutant", [("src/stabilize/models/workflow.py", """        validate_stage_graph(stages)
+
+        execution = cls(
+            application=application,""", """        execution = cls(
+            application=application,""")], "C20.R5")
+case("c20-refactor-rename-opfunc", "C20", "refactor", [(EX_, """            op_func = _SAFE_OPERATORS.get(type(op))
+            if op_func is None:""", """            cmp_ = _SAFE_OPERATORS.get(type(op))
+            if cmp_ is None:"""), (EX_, """                if not op_func(left, right):""", """                if not cmp_(left, right):""")])
+case("c20-refactor-catch-exception", "C20", "refactor", [(EX_, """            except TypeError as e:
+                raise ExpressionError(
+                    f"Cannot compare""", """            except Exception as e:
+                raise ExpressionError(
+                    f"Cannot compare""")])
